@@ -152,6 +152,11 @@ def check(run):
     run.check(len(rets) == 1 and q.unparse(rets[0].value) == 'self._time', r, tp.short, 'Interpreter.time is the frozen step time', 'differs', tp.node)
     writers = [f.short for f in prog.functions() if f.outer is None for c, fld, k, n in prog.direct_writes(f) if fld == '_time' and c == 'Interpreter']
     run.check(sorted(writers) == ['Interpreter.__init__', 'Interpreter.execute_once'], r, 'Interpreter', '_time changes only when a step starts', 'writers: %s' % writers, None)
+    # "the time of the last step": the MacroStep returned by execute_once carries the frozen time, not a fresh reading of the clock
+    ei = run.fn('Interpreter.execute_once')
+    ms = [c for c in q.calls(ei.node) if dotted(c.func) == 'MacroStep']
+    run.check(len(ms) >= 1 and all(q.unparse(q.arg(c, 0, 'time')) in ('self.time', 'self._time') for c in ms), r, ei.short, 'MacroStep(time=<frozen step time>)',
+              'the time reported for the step is read from the clock again: it differs from what SynchronizedClock and the step itself saw', ms[0] if ms else ei.node)
     uc = run.fn('UtcClock.time')
     rets = [n for n in q.walk(uc.node, False) if isinstance(n, ast.Return)]
     run.check(len(rets) == 1 and q.unparse(rets[0].value) == 'time()', r, uc.short, 'UtcClock.time = time()', 'differs', uc.node)
